@@ -26,7 +26,8 @@ func unpackWorld() {
 	envChdir("/w")
 }
 
-var unpackFlags = []byte{tar.TypeReg, tar.TypeDir, tar.TypeSymlink, tar.TypeLink, tar.TypeFifo, tar.TypeChar}
+// (a PAX global header record, typeflag 'g', is handed to the caller as an entry with its raw name)
+var unpackFlags = []byte{tar.TypeReg, tar.TypeDir, tar.TypeSymlink, tar.TypeLink, tar.TypeFifo, tar.TypeChar, tar.TypeXGlobalHeader}
 
 func noNUL(s string) bool {
 	for i := 0; i < len(s); i++ {
@@ -286,4 +287,27 @@ func HarnessC04Allow() {
 			}
 		}
 	}
+}
+
+// HarnessC01Reuse: one Packer unpacks two archives into two destinations in turn. The first call
+// may fail part-way (K symbolic entries); whatever it did, the second call touches nothing outside
+// its own destination - in particular not the first one.
+func HarnessC01Reuse() {
+	unpackWorld()
+	envMkdir("/w/q", 0755, 100)
+	envMkdir("/w/q/r", 0755, 100)
+	p := &Packer{}
+	k := verif.Param("K", 2)
+	var first []envTarEntry
+	for i := 0; i < k; i++ {
+		first = append(first, unpackSegEntry(verif.Param("sName", 2), verif.Param("sLink", 1)))
+	}
+	err1 := p.Unpack(envTarReader(first, false), unpackDst)
+	verif.ObserveBool("first", err1 == nil)
+	envBaseline() // from here on: the second call
+	second := []envTarEntry{{Name: "x/", Typeflag: tar.TypeDir, Mode: 0700, Mtime: 1001}, {Name: "x/f", Typeflag: tar.TypeReg, Mode: 0600, Mtime: 1002, Body: "B"}}
+	err2 := p.Unpack(envTarReader(second, false), "/w/q/r")
+	verif.Reach("second-unpack")
+	verif.Assert("C01-second-unpack-succeeds", err2 == nil)
+	verif.Assert("C01-nothing-outside-dst-touched", envChangedOutside("/w/q/r") == "")
 }
